@@ -179,7 +179,7 @@ def run(ctx):
     k = 0
     for name in names:
         cfg = cat[name]
-        behs, _ = BR.behaviours(ctx, name, cfg, 3 if cfg.T // cfg.QStep <= 4 else 2, 100 if quick else 600, ctx.seed)
+        behs, _ = BR.behaviours(ctx, name, cfg, 3 if cfg.T // cfg.QStep <= 4 else 2, 60 if quick else 600, ctx.seed)
         traces = []
         for beh in behs:
             qs = BR.history(beh)
@@ -204,9 +204,9 @@ def run(ctx):
                               replay=dict(cfg=cfg.as_dict(), queries=traces[i][0]))
 
     # ---- sweeps with the real warm-up constant ----------------------------------------------------
-    ns = [400] if quick else [1000, 10000]
+    ns = [150] if quick else [1000, 10000]
     for n in ns:
-        for cs in (0, 1, 2, 45, None):
+        for cs in ((0, 2, None) if quick else (0, 1, 2, 45, None)):
             for levy in (("none", "space-time") if quick else P.LEVIES):
                 bad = sweep_repeat(n, cs, levy, size=(2, 2) if levy in ("davie", "foster") else (2,))
                 ctx.case(("sweep", n, cs, levy), sample=dict(sweep=n, cache_size=cs, levy=levy))
